@@ -265,8 +265,15 @@ func layerLossLessConvertFunc(compressor estargz.Compressor, chunkSize int, minC
 
 		// write diffID label
 		labelz[labels.LabelUncompressed] = esgzUncompressedInfo.diffID.String()
-		if err = w.Commit(ctx, n, "", content.WithLabels(labelz)); err != nil && !errdefs.IsAlreadyExists(err) {
-			return nil, err
+		if err = w.Commit(ctx, n, "", content.WithLabels(labelz)); err != nil {
+			if !errdefs.IsAlreadyExists(err) {
+				return nil, err
+			}
+			// The same blob is already in the content store (e.g. the input is already
+			// converted). Commit didn't touch its labels so record the diffID here.
+			if err := estargzconvert.UpdateUncompressedLabel(ctx, cs, w.Digest(), esgzUncompressedInfo.diffID); err != nil {
+				return nil, err
+			}
 		}
 		if err := w.Close(); err != nil {
 			return nil, err
